@@ -275,14 +275,17 @@ def find (inp : FindInput) (ax1 : Nat) (oracle : Nat → Nat → Quat) (choose :
 /-! ### atoms stored outside the unit cell
 
   `_get_positions_from_all_adjacent_unit_cells` searches every atom through its image INSIDE the cell:
-  `cells_away = floor(positions · cell⁻¹)`, `home_positions = positions − cells_away · cell` — a translation by integer
+  `cells_away = floor(positions · cell⁻¹ + 1e-9)`, `home_positions = positions − cells_away · cell` — a translation by integer
   lattice vectors (an atom already inside is not moved at all). `find` / `findGroups` above are the search on the
   positions they are given; `findW` / `findGroupsW` are `find_pattern_in_structure` itself. -/
 
-/-- how many whole cells an atom is away from the home cell, along each lattice vector -/
+/-- `1e-9`: an atom sitting on a cell face within rounding (fractional coordinate `−1e-17`, say) counts as inside -/
+def faceEps : Rat := 1 / 1000000000
+
+/-- how many whole cells an atom is away from the home cell, along each lattice vector: `floor(frac + 1e-9)` -/
 def Mat3.cellsAway (m : Mat3) (v : Vec3) : Int × Int × Int :=
   let f := m.frac v
-  (f.x.floor, f.y.floor, f.z.floor)
+  ((f.x + faceEps).floor, (f.y + faceEps).floor, (f.z + faceEps).floor)
 
 /-- the image of `v` inside the cell: `v − (i·A + j·B + k·C)` with `(i, j, k) = cellsAway v` -/
 def Mat3.intoCell (m : Mat3) (v : Vec3) : Vec3 :=
